@@ -467,7 +467,21 @@ func recordSize(e *Env, fn *ssa.Function, buf ssa.Value) string {
 	if !ok {
 		return "the record buffer is not a make([]byte, total)"
 	}
-	phi, ok := StripConv(ms.Len).(*ssa.Phi)
+	return accumulatedSize(e, fn, StripConv(ms.Len), 0)
+}
+
+// accumulatedSize: v is the running sum of Size() over every property of an element,
+// computed in fn or (one level) in a formats/ply helper whose result v is.
+func accumulatedSize(e *Env, fn *ssa.Function, v ssa.Value, depth int) string {
+	if ex, isEx := v.(*ssa.Extract); isEx {
+		if cl, isCall := ex.Tuple.(*ssa.Call); isCall {
+			return helperSize(e, cl, ex.Index, depth)
+		}
+	}
+	if cl, isCall := v.(*ssa.Call); isCall {
+		return helperSize(e, cl, 0, depth)
+	}
+	phi, ok := v.(*ssa.Phi)
 	if !ok {
 		return "the record buffer's length is not the accumulated property size"
 	}
@@ -512,4 +526,33 @@ func recordSize(e *Env, fn *ssa.Function, buf ssa.Value) string {
 		}
 	}
 	return ""
+}
+
+func helperSize(e *Env, cl *ssa.Call, idx int, depth int) string {
+	callee := cl.Common().StaticCallee()
+	if depth >= 2 || callee == nil || callee.Blocks == nil || callee.Pkg == nil || callee.Pkg.Pkg.Path() != PlyPath {
+		return "the record buffer's length comes from a call that cannot be analysed"
+	}
+	n := 0
+	why := ""
+	ssau.AllInstrs(callee, func(in ssa.Instruction) {
+		r, ok := in.(*ssa.Return)
+		if !ok || idx >= len(r.Results) {
+			return
+		}
+		// error returns (last result non-nil) do not deliver a size
+		if last := r.Results[len(r.Results)-1]; len(r.Results) > 1 {
+			if k, isC := last.(*ssa.Const); !isC || !k.IsNil() {
+				return
+			}
+		}
+		n++
+		if w := accumulatedSize(e, callee, StripConv(r.Results[idx]), depth+1); w != "" {
+			why = w
+		}
+	})
+	if n == 0 {
+		return "the size helper never returns successfully"
+	}
+	return why
 }
